@@ -55,6 +55,33 @@ var glyphServerWeave = []weave.PkgConfig{
 }
 
 var specs = map[string]*propSpec{
+	"C19": {
+		ID: "C19", Title: "a failed reload never takes the dev server down",
+		TestPkg: "cmd/glyph", HarnessDir: "C19", HarnessExtra: []string{"glyphcommon"},
+		Weave: []weave.PkgConfig{
+			{Path: "./cmd/glyph", Touch: true,
+				Replace:     map[string]string{"github.com/fsnotify/fsnotify": weave.RTPath + "/simfsn"},
+				CallReplace: map[string]string{"net/http.Server.ListenAndServe": "SimListenAndServe", "net/http.Server.Shutdown": "SimShutdown"}},
+			{Path: "./pkg/hotreload", Touch: true, L2Files: []string{"*"}},
+			{Path: "./pkg/server"},
+			{Path: "./pkg/websocket"},
+			{Path: "./pkg/interpreter"},
+			{Path: "./pkg/vm"},
+		},
+		ExtraPkgs: []extraPkg{{From: "sim/simfsn", To: "pkg/zzsimrt/simfsn"}},
+		QuickSecs: 45, ThoroughSecs: 600, Chunk: 50,
+		Rule: "each run is either (A) `glyph dev`: the real hotReloadManager started on a valid file, then 1-12 edits drawn from {valid version k, parse error, semantic error, empty, deleted, deleted-and-recreated}, saves delivered whole or torn into two writes with an event in between, duplicated / extra / spurious (chmod) / create events, waits from 0 to 3 s around the 100 ms debounce, a probe request after every edit and a final valid edit; or (B) the library ReloadManager with its polling FileWatcher over real files, the real parser+compiler behind CompilerInterface, a recording ServerInterface with injected Reload failures, edits spaced around the 500 ms poll and 200 ms debounce; a run is non-trivial if a fault fired (torn save, extra/spurious event, injected reload failure, clock jump) or two tasks were runnable at once with a preemption; distinct = distinct fingerprints (schedule hash combined with workload and fault tapes) among those",
+		Components: []component{
+			{"cmd/glyph hotReloadManager.startServer / startDevServerInternal / watchForChanges (debounce) / reload, parseSource, setupRoutes, createHandler", "real-woven", "L0 + race probes"},
+			{"pkg/hotreload FileWatcher (hashing real files), ReloadManager.handleChanges", "real-woven", "yield before every statement + race probes"},
+			{"source file", "real", "a real file in a per-run temporary directory, written by the harness"},
+			{"fsnotify / inotify", "stub", "sim/simfsn: the harness emits the events"},
+			{"listening socket, http.Server.ListenAndServe/Shutdown", "stub", "simulated port table (address in use, refused connections, shutdown waits for in-flight requests)"},
+			{"CompilerInterface / ServerInterface of the library manager", "stub", "harness implementations: real parser+compiler, recording server"},
+			{"clock, timers", "stub", "testing/synctest fake clock"},
+		},
+		FaultKinds: []string{"torn-save", "duplicate-or-extra-event", "spurious-event", "reload-fails", "clock-jump"},
+	},
 	"C16": {
 		ID: "C16", Title: "WebSocket rooms stay consistent under concurrency",
 		TestPkg: "pkg/websocket", HarnessDir: "C16",
